@@ -8,7 +8,8 @@ cluster-subscription bookkeeping of the dependency manager it talks to
 Actors and their atomic steps (= ops):
 
   rds S        the dependency manager (under its mutex) applies a route configuration whose routes
-               name the clusters S: static references := S, subscriptions without any reference are
+               name the clusters S (a LIST: a cluster may be named by several routes or several times in
+               one weighted-cluster route; both sides keep ONE reference per distinct cluster): static references := S, subscriptions without any reference are
                deleted, and — all cluster/endpoint resources being available — it calls
                `watcher.Update(config)`, which the resolver only ENQUEUES on its callback serializer.
                `config` carries the route clusters S and `XDSConfig.Clusters` = all current subscriptions.
